@@ -42,6 +42,7 @@ class Script(Session):
 
     def length(self, name, lo=1, hi=None):
         c = ctx()
+        self.used_length = True
         if self.mode == "replay":
             return self._rec(name, int(self.pinned[name]))
         if self.mode == "refute":
@@ -260,4 +261,20 @@ def dump_val(model, v):
         return [dump_val(model, x) for x in v]
     if isinstance(v, dict):
         return {str(k): dump_val(model, x) for k, x in v.items()}
+    from .heap import OptDict, Mark
+    from .interp import Obj
+    if isinstance(v, OptDict):
+        out = {}
+        for k in v.keys:
+            p = dump_val(model, v.pres[k]) if not isinstance(v.pres[k], bool) else v.pres[k]
+            if p:
+                out[str(k)] = dump_val(model, v.vals[k])
+        return out
+    if isinstance(v, Mark):
+        return dump_val(model, v.truth)
+    if isinstance(v, Obj):
+        return {k: dump_val(model, x) for k, x in v.attrs.items()
+                if isinstance(x, (bool, int, str, SInt, SBool, XR, OptDict, dict, list)) or x is None}
+    if v is None:
+        return None
     return str(v)
